@@ -123,6 +123,22 @@ def check(ctx: Ctx, col: Collector, tier: str) -> None:
     (col.ok if good else col.bad)("C07.INFER-TABLE", key, repo.loc(HELPERS, efi.node), f"{[(o.kind, repr(o.value)) for o in outs]}",
                                   *([] if good else ["a signed literal is not inferred from its operand"]))
 
+    # ------------------------------------------------------------------ INFER-COLLECT: what the collecting set identifies
+    from ..core.ctx import TYPES_MOD
+    tt = repo.module(TYPES_MOD).classes["TupleType"].methods.get("__eq__")
+    if tt is None:
+        raise AnalysisError("TupleType.__eq__ not found")
+    col.touched(tt)
+    eq_rets = [ast.unparse(n.value) for n in ast.walk(tt.node) if isinstance(n, ast.Return) and n.value is not None and "types" in ast.unparse(n.value)]
+    unordered = [r for r in eq_rets if re.search(r"\b(Counter|frozenset|set|sorted)\(", r)]
+    key = f"{TYPES_MOD}::TupleType.__eq__::element-order"
+    if unordered or not eq_rets:
+        col.bad("C07.INFER-COLLECT", key, repo.loc(TYPES_MOD, tt.node), f"TupleType.__eq__ returns `{(unordered or ['?'])[0][:80]}`",
+                "inferred result types are collected in a set, and two tuple types whose elements are permutations of each other compare equal: `return 0, \"empty\"` and "
+                "`return \"ok\", 1` yield the single result tuple (Int, String) - the second return statement is not covered")
+    else:
+        col.ok("C07.INFER-COLLECT", key, repo.loc(TYPES_MOD, tt.node), f"tuple types are compared element by element: {eq_rets[0][:80]}")
+
     # ------------------------------------------------------------------ INFER-COLLECT
     ifi = repo.function(VISITOR, "MyPyAstVisitor._infer_type_from_return_stmts")
     col.touched(ifi)
